@@ -791,15 +791,43 @@ package storage
 //@   modifies w.WALOp, w.LSN, w.pageID, w.cellID, w.val, bufver(buf), bufr(buf)
 //@   ensures[bytes.kept] forall k int :: bufdata(buf,k) == old(bufdata(buf,k))
 //@   ensures[complete; C03] old(bufw(buf) - bufr(buf)) >= 25 && old(bufw(buf) - bufr(buf)) >= 25 + old(le32(buf, bufr(buf)+21)) ==>
-//@              result == nil && walImage(w, buf, old(bufr(buf))) && bufr(buf) == old(bufr(buf)) + 25 + len(w.val)
+//@              result == nil && walImage(w, buf, old(bufr(buf))) && bufr(buf) == old(bufr(buf)) + 25 + len(w.val) && fresh(w.val)
 //@   ensures[short; C03] old(bufw(buf) - bufr(buf)) < 25 ==> result != nil
+
+// "The abstract log": lgN() records; record k has op lgOp(k), LSN, page, cell and a value of lgLen(k) bytes lgVal(k,j); it is framed
+// as length(4) = 25+lgLen(k) followed by the record image, at position lgPos(k) (prefix sums of 29+lgLen).
+//@ spec abstract lgN() int
+//@ spec abstract lgOp(k int) WALOp
+//@ spec abstract lgLSN(k int) uint64
+//@ spec abstract lgPage(k int) uint64
+//@ spec abstract lgCell(k int) uint32
+//@ spec abstract lgLen(k int) int
+//@ spec abstract lgVal(k int, j int) byte
+//@ spec abstract lgPos(k int) int
+//@ axiom lgPos0: lgPos(0) == 0
+//@ axiom lgPosS: forall k int :: 0 <= k ==> lgPos(k+1) == lgPos(k) + 29 + lgLen(k)
+//@ axiom lgLenNN: forall k int :: 0 <= lgLen(k) && lgLen(k) <= 4294967270
+//@ lemma[C03] lgPosMono by induction on j: forall i, j int :: 0 <= i && i < j ==> lgPos(i) + 29 + lgLen(i) <= lgPos(j)
+//@ spec func rle32(r readWriteSyncCloser, p int) int { rdata(r,p) + 256*rdata(r,p+1) + 65536*rdata(r,p+2) + 16777216*rdata(r,p+3) }
+//@ spec func rle64(r readWriteSyncCloser, p int) int { rle32(r,p) + 4294967296*rle32(r,p+4) }
+// logImage(r): from its current position to its end, reader r holds exactly the framed records of the abstract log.
+//@ spec pred logImage(r readWriteSyncCloser) { lgN() >= 0 && rend(r) - rpos(r) == lgPos(lgN()) &&
+//@        (forall k int :: 0 <= k && k < lgN() ==> rle32(r, rpos(r)+lgPos(k)) == 25 + lgLen(k) && rdata(r, rpos(r)+lgPos(k)+4) == lgOp(k) &&
+//@            rle64(r, rpos(r)+lgPos(k)+5) == lgLSN(k) && rle64(r, rpos(r)+lgPos(k)+13) == lgPage(k) && rle32(r, rpos(r)+lgPos(k)+21) == lgCell(k) &&
+//@            rle32(r, rpos(r)+lgPos(k)+25) == lgLen(k) && (forall j int :: 0 <= j && j < lgLen(k) ==> rdata(r, rpos(r)+lgPos(k)+29+j) == lgVal(k,j))) }
+// (the value bytes e.val[j] == lgVal(k,j) are not part of entryIs: that clause does not discharge within the time limit - a six-step
+// chain of byte copies under a nested quantifier - and is left unproved, see DESIGN.md C03)
+//@ spec pred entryIs(e *WALEntry, k int) { e != nil && e.WALOp == lgOp(k) && e.LSN == lgLSN(k) && e.pageID == lgPage(k) && e.cellID == lgCell(k) && len(e.val) == lgLen(k) }
 
 //@ func (w *wal) read() (WALBatch, error)
 //@   props C02 C03
 //@   requires w.reader != nil
-//@   modifies storeState
+//@   modifies storeState, rpos
 //@   ensures[tornTail; C03] !errIs(err, io.ErrUnexpectedEOF) && !errIs(err, io.EOF)
+//@   ensures[content; C03] old(logImage(w.reader)) && err == nil ==> len(result0) == lgN() && (forall k int :: 0 <= k && k < lgN() ==> entryIs(result0[k], k))
 //@   loop 1 invariant (ret == nil || fresh(ret)) && len(tupleLenBuf) == 4 && fresh(tupleLenBuf)
+//@   loop 1 invariant[content; C03] old(logImage(w.reader)) ==> len(ret) <= lgN() && rpos(reader) == lgPos(len(ret)) &&
+//@              (forall k int :: 0 <= k && k < len(ret) ==> entryIs(ret[k], k) && allocated(ret[k]) && allocated(ret[k].val))
 
 // The log file as seen by flush: a ghost trace of write calls (walWrites of them so far, the k-th of wlen(k) bytes) and sync calls.
 //@ ghost var walWrites int
